@@ -77,16 +77,26 @@ def run(ctx):
         nones = [p for p in ps if is_agg(p.ret, None, 'None')]
         good = bool(items)
         desc = []
+        # the two sides by role: the field holding the shape iterator, and the other (row) iterator field
+        adt = F.adts.get("reader::ShapeRecordIterator") or {}
+        flds = (adt.get("variants") or [{}])[0].get("fields", [])
+        shape_f = [x["name"] for x in flds if x["ty"].startswith("reader::ShapeIterator")]
+        row_f = [x["name"] for x in flds if not x["ty"].startswith("reader::ShapeIterator") and "PhantomData" not in x["ty"]]
+        if len(shape_f) != 1 or len(row_f) != 1:
+            ctx.missing("C08.iter", "ShapeRecordIterator: one shape-iterator field and one row-iterator field")
+            shape_f, row_f = ["?"], ["?"]
+        SHAPE_IT, ROW_IT = "." + shape_f[0], "." + row_f[0]
+
         def pulls_of(p):
             """(shape pulls, row pulls): calls of the shape iterator's next and next() terms on the record iterator"""
-            sp = [e for e in p.eff if e[0] == 'call' and e[1] == 'std::iter::Iterator::next' and 'shape_iter' in absint.term_str(e[3][0])]
+            sp = [e for e in p.eff if e[0] == 'call' and e[1] == 'std::iter::Iterator::next' and SHAPE_IT in absint.term_str(e[3][0])]
             rp = set()
             for t, v in p.cons:
                 for x in absint.subterms(t):
-                    if isinstance(x, tuple) and x and x[0] == 'next' and 'record_iter' in absint.term_str(x[1]):
+                    if isinstance(x, tuple) and x and x[0] == 'next' and ROW_IT in absint.term_str(x[1]):
                         rp.add(x)
             for x in absint.subterms(p.ret) if p.ret else []:
-                if isinstance(x, tuple) and x and x[0] in ('elem', 'elemref') and 'record_iter' in absint.term_str(x[1]):
+                if isinstance(x, tuple) and x and x[0] in ('elem', 'elemref') and ROW_IT in absint.term_str(x[1]):
                     rp.add(('next', x[1], x[2]))
             return sp, rp
         for p in items:
@@ -97,7 +107,7 @@ def run(ctx):
                 good = False
                 continue
             a, b = agg_field(tup, '0'), agg_field(tup, '1')
-            if not (absint.contains(a, sp_[0][-1]) and 'record_iter' in absint.term_str(b)):
+            if not (absint.contains(a, sp_[0][-1]) and ROW_IT in absint.term_str(b)):
                 good = False
                 desc.append("the pair is not (shape pulled, row pulled)")
         ctx.ob("C08.iter", "one shape then one row", good, "(shape pulls, row pulls) per item: %s" % desc, site=site, key="C08.iter|pulls")
